@@ -472,6 +472,22 @@ func htreeCases(r *vk.Run, width int) error {
 	root := t.Root()
 	r.Case(fmt.Sprintf("CHtRoot %s %s", digList(ds), hx(root[:])),
 		map[string]any{"kind": "htroot", "width": width}, "htree/root", width >= 3 && width&(width-1) != 0)
+	// indexes outside 0 <= i < width: outcome class of InclusionProof (0 proof, 1 error, 2 panic)
+	for _, i := range []int{-1, -2, width, width + 1} {
+		c := 0
+		func() {
+			defer func() {
+				if recover() != nil {
+					c = 2
+				}
+			}()
+			if _, err := t.InclusionProof(i); err != nil {
+				c = 1
+			}
+		}()
+		r.Case(fmt.Sprintf("CHtEdge %s (%d)%%Z %d", digList(ds), i, c),
+			map[string]any{"kind": "htedge", "width": width, "i": i, "class": c}, "htree/edge", true)
+	}
 	for i := 0; i < width; i++ {
 		p, err := t.InclusionProof(i)
 		if err != nil {
